@@ -1,6 +1,6 @@
 (* C06 — Issuance: what the holder's acceptance guarantees, for ANY issuer message. *)
 From Coq Require Import ZArith List.
-From Gabi Require Import ModArith GoSem ParamsDef Keys Core CL Prover.
+From Gabi Require Import ModArith GoSem ParamsDef Keys Core CL Prover DiscloseComplete IssueComplete.
 Import ListNotations.
 Open Scope Z_scope.
 
@@ -35,3 +35,18 @@ Theorem merged_attributes :
                                         nth_error merged k = Some (Some (mi + mu))
     end.
 Proof. exact merge_blind_spec. Qed.
+
+(* An honest issuance commitment is accepted: the issuer's reconstruction of the user's commitment to the
+   randomizers (reconstructUcommit) from the honest responses equals the value the user hashed, for any
+   challenge, any secret, any blind attributes; so the recomputed challenge is the proof's challenge. (Without
+   a keyshare server; units: S and the bases used are invertible modulo n.) *)
+Theorem issuance_commitment_complete :
+  forall pk, 1 < pk_N pk ->
+  forall secret vPrime vPrimeCommit mUser mc skr c b l,
+  unitb pk (pk_S pk) -> in_R pk 0 -> unitb pk (R_at pk 0) ->
+  (forall kv, In kv mUser -> in_R pk (fst kv) /\ unitb pk (R_at pk (fst kv))) -> 0 <= c ->
+  new_credential_builder pk secret None vPrime vPrimeCommit mUser (mck mc mUser) = Ok b ->
+  (forall kv, In kv mUser -> lookup (mck mc mUser) (fst kv) = Some (mc (fst kv))) ->
+  cb_commit pk b skr None = Ok l ->
+  exists uc, l = [cb_u b; uc] /\ reconstruct_ucommit pk (cb_create_proof b skr c) = Ok uc.
+Proof. exact issue_complete_lem. Qed.
